@@ -310,16 +310,38 @@ func runC14(layout string, ops []c14Op, concurrent bool) (vs []Violation, stats 
 	// A fresh sentinel file per barrier, named by its sequence number, so that a
 	// late second event of an earlier sentinel can never be taken for this one.
 	snap := make(chan []byte, 4)
+	reloaded := make(chan struct{}, 4)
 	var wantSuffix string
+	sawSentinel := false
 	c14LogMu.Lock()
 	c14LogHook = func(line string) {
+		if strings.Contains(line, "updated current TLS certificate") || strings.Contains(line, "error re-reading certificate") {
+			// the reload that follows the sentinel's own event is over: the watcher holds
+			// no file open any more (an open descriptor delays IN_DELETE_SELF of a file that
+			// the next step renames over, which could then arrive behind the next sentinel)
+			c14LogMu.Lock()
+			was := sawSentinel
+			sawSentinel = false
+			c14LogMu.Unlock()
+			if was {
+				select {
+				case reloaded <- struct{}{}:
+				default:
+				}
+			}
+			return
+		}
 		if !strings.Contains(line, "certificate event") {
 			return
 		}
 		c14LogMu.Lock()
 		ws := wantSuffix
+		hit := ws != "" && strings.Contains(line, ws)
+		if hit {
+			sawSentinel = true
+		}
 		c14LogMu.Unlock()
-		if ws != "" && strings.Contains(line, ws) {
+		if hit {
 			c, _ := cw.GetCertificate(nil)
 			select {
 			case snap <- leafOf(c):
@@ -344,6 +366,8 @@ func runC14(layout string, ops []c14Op, concurrent bool) (vs []Violation, stats 
 			select {
 			case <-snap:
 				continue
+			case <-reloaded:
+				continue
 			default:
 			}
 			break
@@ -362,6 +386,11 @@ func runC14(layout string, ops []c14Op, concurrent bool) (vs []Violation, stats 
 		case l = <-snap:
 		case <-time.After(20 * time.Second):
 			panic("HARNESS: barrier timeout: the sentinel event was not reported within 20s")
+		}
+		select {
+		case <-reloaded:
+		case <-time.After(20 * time.Second):
+			panic("HARNESS: barrier timeout: the reload behind the sentinel event did not finish within 20s")
 		}
 		if prevSentinel != "" {
 			cw.VerifWatcher().Remove(prevSentinel)
